@@ -13,7 +13,7 @@ import (
 )
 
 func init() {
-	register("C13", checkC13, "Write-effect freedom by a derived-pointer (taint) analysis over SSA. Sources: every load of a []byte / [N]byte field of a response struct or of Registers (the payload). Roots: all value-receiver methods of Registers, Field.ExtractFrom, BuilderRequest.ExtractFields/AsRegisters/extract*Fields, the responses' AsRegisters/IsCoilSet/IsInputSet and isBitSet. In every module function reachable from a root (VTA call graph), with taint propagated through slicing, phis, conversions, struct/tuple flow and module-local calls (parameters and results): R13.1 no store through a payload-derived pointer, no copy/append with a payload-derived destination, no hand-over of a payload-derived slice to code outside a frozen read-only allow-list; R13.2 no store to a package-level variable and no store through a pointer parameter or receiver (no hidden decoder state). Together every accessor is a pure function of (payload bytes, configuration), which gives repeatability and order independence for all call sequences. R13.2 additionally runs the shared-state scan over the same roots: copy/append into package-level memory and hand-over of package-level variables (a shared buffer, a sync.Pool) to other code.")
+	register("C13", checkC13, "Write-effect freedom by a derived-pointer (taint) analysis over SSA. Sources: every load of a []byte / [N]byte field of a response struct or of Registers (the payload). Roots: all value-receiver methods of Registers, Field.ExtractFrom, BuilderRequest.ExtractFields/AsRegisters/extract*Fields, the responses' AsRegisters/IsCoilSet/IsInputSet and isBitSet. In every module function reachable from a root (VTA call graph), with taint propagated through slicing, phis, conversions, struct/tuple flow and module-local calls (parameters and results): R13.1 no store through a payload-derived pointer, no copy/append with a payload-derived destination, no hand-over of a payload-derived slice to code outside a frozen read-only allow-list; R13.2 no store to a package-level variable and no store through a pointer parameter or receiver (no hidden decoder state). Together every accessor is a pure function of (payload bytes, configuration), which gives repeatability and order independence for all call sequences. R13.2 additionally runs the shared-state scan over the same roots: any use of a package-level variable that is not constant after initialisation (a shared decode buffer, a pool whose objects leave the call, a cache).")
 }
 
 type taintCtx struct {
@@ -356,7 +356,8 @@ func (t *taintCtx) sinkCall(fn *ssa.Function, x *ssa.Call, isT func(ssa.Value) b
 		if t.c.inModule(callee) && callee.Blocks != nil {
 			continue // analysed with tainted parameters
 		}
-		if !readOnlyCallees[callee.String()] {
+		// a method value (x.M) calls M through a synthetic bound wrapper
+		if !readOnlyCallees[strings.TrimSuffix(callee.String(), "$bound")] {
 			t.add(fn, "R13.1", "payload-derived slice handed to "+callee.String()+", which is not on the read-only allow-list", x.Pos(), "escape:"+callee.String())
 		}
 	}
@@ -517,6 +518,15 @@ func checkC13(c *Ctx, r *Report) {
 				r.ok(rule, n, what, "-", true)
 			}
 		}
+	}
+	// R13.3: the result reported for a field does not depend on which fields were extracted before
+	// it: each FieldValue is built afresh from (this field, the value and error just obtained for it)
+	// in both extraction loops (C05 R5.4)
+	{
+		tmp := newReport(r.Prop, r.Tier)
+		c05Loops(c, tmp)
+		r.instance("R13.3", copyItems(tmp, r, "R5.4", "R13.3"))
+		r.floor("R13.3", 4)
 	}
 	r.extra["payload_fields"] = len(sources)
 	r.extra["store_and_call_sites_examined"] = t.nsites
